@@ -1051,9 +1051,15 @@ class QubitCircuit:
         qasm_out.output(n=1)
 
         for op in self.gates:
-            if (not isinstance(op, Measurement)) and not qasm_out.is_defined(
-                op.name
-            ):
+            if isinstance(op, Measurement):
+                continue
+            if op.name in self.user_gates:
+                # the user's matrix defines this gate, whatever its name is
+                raise NotImplementedError(
+                    "Exporting the user defined gate {} "
+                    "is not implemented.".format(op.name)
+                )
+            if not qasm_out.is_defined(op.name):
                 qasm_out._qasm_defns(op)
 
         for op in self.gates:
